@@ -87,7 +87,8 @@ Proof.
     eapply incl_tran; [apply IH; exact Hx | apply push_unary].
   - apply bind_ok in H as (x & Hx & H). inversion H. cbn [refs eid out_path app].
     eapply incl_tran; [apply IH; exact Hx | apply push_unary].
-  - apply bind_ok in H as (x & Hx & H). inversion H. cbn [eid out_path app].
+  - destruct n as [|n']; [inversion H; apply incl_nil_l|].
+    apply bind_ok in H as (x & Hx & H). inversion H. cbn [eid out_path app].
     eapply incl_tran; [apply refs_array|]. eapply incl_tran; [apply IH; exact Hx | apply push_unary].
   - apply bind_ok in H as (l & Hl & H). inversion H. cbn [refs eid out_path app].
     apply omap_list_ok in Hl. apply args_refs_incl; assumption.
@@ -126,7 +127,8 @@ Proof.
   - inversion H. rewrite refs_leaf. apply incl_nil_l.
   - apply bind_ok in H as (x & Hx & H). inversion H. cbn [refs flat_map]. rewrite !app_nil_r. eauto.
   - apply bind_ok in H as (x & Hx & H). inversion H. cbn [refs]. eauto.
-  - apply bind_ok in H as (x & Hx & H). inversion H. eapply incl_tran; [apply refs_array|]. eauto.
+  - destruct n as [|n']; [inversion H; apply incl_nil_l|].
+    apply bind_ok in H as (x & Hx & H). inversion H. eapply incl_tran; [apply refs_array|]. eauto.
   - apply bind_ok in H as (x & Hx & H). apply bind_ok in H as (y & Hy & H). inversion H.
     apply bind_ok in Hd as (la & Hla & Hd). apply bind_ok in Hd as (lb & Hlb & Hd). inversion Hd.
     cbn [refs]. rewrite eids_app. apply incl_app; [apply incl_appl | apply incl_appr]; eauto.
